@@ -319,6 +319,9 @@ func runCheck(repo, prop, tier string, rest []string) int {
 	for _, j := range c.jobs {
 		o := j.o
 		solverTime += o.TimeS
+		if f := os.Getenv("VERIF_LIST"); f != "" && strings.Contains(o.Name, f) {
+			fmt.Printf("LIST %s %s %.2fs\n", o.Result, o.Name, o.TimeS)
+		}
 		if os.Getenv("VERIF_SLOW") != "" && o.TimeS > 1.0 {
 			fmt.Printf("SLOW %.2fs %s %s %s\n", o.TimeS, o.Result, o.Solver, o.Name)
 		}
